@@ -1980,6 +1980,15 @@ class Exec:
                 def el(ix, a=a, idx=idx, plan=plan):
                     return a.elem(tuple(idx.elem((ix[0],)) if p[0] == 'f' else p[1] for p in plan))
                 return st.alloc(self.c, Arr(idx.shape, el, a.kind))
+        if a.ndim == 2 and len(plan) == 2 and plan[0][0] == 's' and conc_int(plan[0][1]) == 0 and plan[0][3] == 1 \
+                and _same(plan[0][2], a.shape[0]) and plan[1][0] == 'f':
+            # a[..., idx] / a[:, idx] on a 2-D array: an integer index array on the last axis
+            idx = st.get(plan[1][1])
+            if isinstance(idx, Arr) and idx.kind == 'int' and idx.ndim == 1:
+                if 'index' in self.safety:
+                    self.oblige('safe.index', st, self.c.Forall(0, idx.shape[0], lambda i: z3.And(
+                        idx.elem((i,)) >= 0, idx.elem((i,)) < to_int(a.shape[1]))), node)
+                return st.alloc(self.c, Arr((a.shape[0], idx.shape[0]), lambda ix, a=a, idx=idx: a.elem((ix[0], idx.elem((ix[1],)))), a.kind))
         raise Unsupported('fancy / boolean indexing at line %d' % getattr(node, 'lineno', 0))
 
     def store(self, base, sl, v, st, node):
